@@ -71,6 +71,12 @@ def mul(a, b):
     return numpy.clip(a * b, -LIM, LIM)
 
 
+def div(population, a, b):
+    """a / b per entity; 0 / 0 is NaN and x / 0 infinite, silently (as numpy does)."""
+    with numpy.errstate(all="ignore"):
+        return (vec(population, a) / vec(population, b)).astype(F32)
+
+
 def idx(x, n):
     return numpy.abs(x).astype(numpy.int64) % n
 
@@ -171,6 +177,8 @@ class _ExprCompiler:
                 return f"({A} {op} {B})"
             if op == "*":
                 return f"mul({A}, {B})"
+            if op == "/":
+                return f"div(population, {A}, {B})"
             if op == "min":
                 return f"numpy.minimum({A}, {B})"
             if op == "max":
